@@ -428,6 +428,10 @@ string nf_cb2(string script) { rec("NFCB2 " + me()); run(script); return "NFMSG2
 void eop(string *a) {
   mixed r; int n;
   switch (a[0]) {
+  case "itn":     // itn <it|gc>: input_to()/get_char() naming a function that does not exist (the efun raises an error)
+    if (a[1] == "gc") r = catch(get_char("no_such_function_zz")); else r = catch(input_to("no_such_function_zz"));
+    rec("ITN " + me() + " " + (r ? "err" : "ok"));
+    break;
   case "nfs":     // nfs <text>: notify_fail(string) - also from inside a notify_fail function that is running
     notify_fail(implode(a[1..], " ") + "\n");
     rec("NFS " + me());
@@ -691,7 +695,7 @@ void do_op(string op) {
   case "filter": case "map": case "sort":
     eop(a);
     break;
-  case "exec": case "parse": case "snoop": case "nfs": case "nff":
+  case "exec": case "parse": case "snoop": case "nfs": case "nff": case "itn":
     eop(a);
     break;
   case "spread2": // spread2 <script>: f(args..., g(script)) - the script runs between the expansion and the call
